@@ -473,6 +473,8 @@ def kill_equivalence(res, rep):
             obs = []
             for what, fn in (("receive", lambda: ch.receive(20)), ("receive-again", lambda: ch.receive(20)), ("waitclose", lambda: ch.waitclose(20)),
                              ("other-waitclose", lambda: other.waitclose(20)), ("other-receive", lambda: other.receive(20)),
+                             # (what the gateway answers "from then on" is asked once its receiver thread has wound up)
+                             ("join", lambda: gw.join(10)),
                              ("send", lambda: ch.send(1)), ("remote_exec", lambda: gw.remote_exec("pass")), ("newchannel", gw.newchannel)):
                 try:
                     r = fn()
